@@ -353,7 +353,11 @@ PyObject* HTMC::cbincount(double rmin, // units of scale*angle in radians
                         if (dis <= maxangle) {
                             double logr = logscale + log10(dis);
 
-                            int radbin = (int) ( (logr-logrmin)/log_binsize );
+                            // separations below rmin (and zero separations,
+                            // whose log is -inf) belong to no bin: the cast
+                            // alone rounds (-1,0) up to bin 0
+                            double fbin = (logr-logrmin)/log_binsize;
+                            int radbin = (fbin >= 0 && fbin < nbin) ? (int) fbin : -1;
                             if (radbin >=0 && radbin < nbin) {
                                 npy_int64 *cptr = (npy_int64 *) PyArray_GETPTR1((PyArrayObject *) counts_array, radbin);
                                 *cptr += 1;
